@@ -91,3 +91,32 @@ Proof.
   cbn [health_run_cap health_run health_event_cap health_event]. rewrite IH. reflexivity.
 Qed.
 Print Assumptions C15_unbounded_accepts_is_health_run.
+
+(* ---- the health-check handler AS TRANSLATED FROM THE SOURCE on this run ----
+   Gen/Code.v gen_handle_health_check is produced by /verif/rs2coq from src/server.rs: the `loop`, the
+   match on `listener.accept()` with its guarded WouldBlock arm, the recorder call, the two ignored
+   write / shutdown results, the two `break`s. The listener is its backlog of established connections
+   (Model/GenSupport.v hl_accept). One readiness event answers every pending connection, in order, up to
+   an accept error other than WouldBlock, and records one health check for each. *)
+Require Import RV.Model.Bytes RV.Model.Server RV.Model.GenSupport RV.Gen.Code RV.Proofs.CodeHealth.
+
+Theorem C15_translated_health_handler_is_model :
+  forall l st,
+  gen_handle_health_check (Some l) st
+  = Ok (snd (health_accepts l), (st ++ map SHealthCheck (fst (health_accepts l)))%list).
+Proof. exact gen_handle_health_check_model. Qed.
+Print Assumptions C15_translated_health_handler_is_model.
+
+(* the `health_event true` of the model above: the whole backlog is answered by ONE event and nothing is
+   left for an event that (the registration being edge-triggered) would never come *)
+Theorem C15_translated_health_every_connection :
+  forall l st, no_accept_failure l ->
+  exists answered, gen_handle_health_check (Some l) st = Ok ([], (st ++ map SHealthCheck answered)%list)
+                   /\ length answered = fst (health_event true (length l)).
+Proof. exact gen_health_every_connection. Qed.
+Print Assumptions C15_translated_health_every_connection.
+
+Example C15_translated_health_example :
+  gen_handle_health_check (Some [HConn 7%N true true; HConn 9%N false true; HConn 7%N true false]) []
+  = Ok ([], [SHealthCheck 7%N; SHealthCheck 9%N; SHealthCheck 7%N]).
+Proof. reflexivity. Qed.
